@@ -50,7 +50,7 @@ def cases(tier):
     out = []
     for pname in PROGRAMS:
         out.append({"kind": "seed", "name": "seed/%s" % pname, "prog": pname})
-    cs = C02.cases(tier)
+    cs = [c for c in C02.cases(tier) if c.get('kind') != 'crosshair']
     for i in range(0, len(cs), 30):
         out.append({"kind": "shape", "name": "gradshape/%d" % i, "c02": cs[i:i + 30]})
     out.append({"kind": "dtype", "name": "dtype-lane"})
@@ -252,7 +252,7 @@ def _run_dtype_lane(c02cases):
 
 def run_dtype(spec, tier, mg):
     res = common.new_result()
-    out = _run_dtype_lane(C02.cases(tier))
+    out = _run_dtype_lane([c for c in C02.cases(tier) if c.get('kind') != 'crosshair'])
     if "error" in out:
         res["status"] = common.INCONCLUSIVE
         res["notes"].append("dtype lane failed: %s" % out["error"])
